@@ -28,6 +28,22 @@ for m in sorted(glob.glob(ROOT + "/seeded/*/meta.json")):
     status = ", ".join(caught) if caught else ("NOT CONFIRMED" if not d.get("confirmed") else "**missed**")
     out.append("| %s | %s | %s *Needs:* %s | %s | %s |" % (d["seed"], d["property"], (d.get("summary") or "")[:260].replace("|", "/"), (d.get("needs") or "")[:200].replace("|", "/"), status, msg.replace("|", "/")))
 out.append("")
+# ---- tests per check
+import sys
+sys.path.insert(0, ROOT)
+import checks_conf
+out.append("### 9.11 Tests behind each check (generated from checks_conf.py)\n")
+out.append("*rapid* = sharded generative test (cases quick / thorough); *plain* = deterministic, exhaustive or scenario test run in both tiers; *fuzz* = native coverage-guided fuzzing, thorough tier (its seed corpus runs as a plain test); *race* = run under the race detector (thorough; the ones marked q also in the quick tier).\n")
+out.append("| check | rapid | plain | fuzz | race |")
+out.append("|-------|-------|-------|------|------|")
+for cid in sorted(checks_conf.CHECKS):
+    c = checks_conf.CHECKS[cid]
+    rp = ", ".join("%s%s (%d / %d)" % (t["name"], (" [" + t["pkg"] + "]") if t.get("pkg") else "", t["quick"], t["thorough"]) for t in c.get("tests", []))
+    pl = ", ".join(x["name"] if isinstance(x, dict) else x for x in c.get("plain", []))
+    fz = ", ".join("%s (%d s)" % (f["name"], f["seconds"]) for f in c.get("fuzz", []))
+    rc = ", ".join(r["name"] + (" q" if r.get("quick") else "") for r in c.get("race", []))
+    out.append("| %s | %s | %s | %s | %s |" % (cid, rp or "-", pl or "-", fz or "-", rc or "-"))
+out.append("")
 txt = "\n".join(out)
 p = ROOT + "/DESIGN.md"
 s = open(p).read()
